@@ -60,10 +60,19 @@ CHECKS["C11"] = {
     "design_ref": "4.4",
 }
 
+CHECKS["C05"] = {
+    "engine": "bootlink-sim",
+    "level": "exploration",
+    "text": "Provisioning sessions and export histories on one SecureBinary31 object: seeded key sets (P-256/P-384, 1..4 roots, with/without ISK incl. mixed curves and user data), PCK 128/256, access rights 0..3, encrypted/plain, header fields incl. the clock-derived default timestamp; operations add_command (14 command types, data lengths chosen to end the stream at every offset mod 256) / export / export again / flip one stored bit / deliver over the simulated UART or HID link with link faults. Every export goes through an independent ROM-loader model (RoT key hash, ISK chain, container signature, hash chain, CMAC-KDF block keys, AES-CBC, section header, command walker) that must accept it and decode exactly the supplied command list and header fields; any flipped bit must be rejected; a delivery that reports success must have made the device execute exactly that command list. The fault-free single-export runs are, candidly, generated inputs against a reference model (reported as control_runs); history_runs and faulted_runs are what the simulation adds.",
+    "note": "Trusted: the ROM-loader model c05/rom31.py (validated at start-up on reference containers under golden/sb31, incl. rejection of corrupted copies; a failure there is exit 2), the C10 link/device models, the clock seam. ECDSA signature bytes are nondeterministic and masked out of digests.",
+    "technique": "deterministic simulation with fault injection: build -> storage fault -> simulated link -> independent ROM-loader model; seeded export histories, bit-flip and link-fault injection",
+    "design_ref": "4.5",
+}
+
 ENGINES = [
     {"name": "register-refinement", "path": "c11/", "serves_properties": ["C11"], "kind_free_text": "seeded operation histories vs bit-vector reference model"},
     {"name": "entropy-history-sim", "path": "c17/", "serves_properties": ["C17"], "kind_free_text": "fork-per-epoch simulator with injective entropy and simulated wall clock"},
-    {"name": "bootlink-sim", "path": "c10/", "serves_properties": ["C10"], "kind_free_text": "host/device co-simulation over a simulated UART / USB-HID link with discrete-event time"},
+    {"name": "bootlink-sim", "path": "c10/", "serves_properties": ["C10", "C05", "C04"], "kind_free_text": "host/device co-simulation over a simulated UART / USB-HID link with discrete-event time"},
     {"name": "dbcache-sim", "path": "c18/", "serves_properties": ["C18"], "kind_free_text": "fork-zygote process simulator with OS-interface interposition and a seeded scheduler"},
 ]
 
